@@ -85,6 +85,60 @@ func c13Gen(t *rapid.T) c13Case {
 	}
 	c.Spec.Schedule = genSchedule(t, nh)
 	c.Spec.GapUs = rapid.SampledFrom([]int{0, 300}).Draw(t, "gapus")
+	if rapid.IntRange(0, 3).Draw(t, "lateredirect") == 0 {
+		// redirection replies come late, and some fragments of split requests on healthy slots are answered with an
+		// error at once: the request is completed (with that error) before its sibling's redirection arrives
+		c.Spec.RedirDelayMs = rapid.SampledFrom([]int{5, 20, 40}).Draw(t, "redirdelay")
+		redirected := map[int]bool{}
+		for _, m := range c.Spec.Moved {
+			redirected[m.Slot] = true
+		}
+		for _, m := range c.Spec.Migrating {
+			redirected[m.Slot] = true
+		}
+		for ci := range c.Spec.Clients {
+			for ri := range c.Spec.Clients[ci].Reqs {
+				r := &c.Spec.Clients[ci].Reqs[ri]
+				if !refmodel.MultiKey(r.lname()) {
+					continue
+				}
+				frags := refSplit(r.lname(), r.Args)
+				hasRedir := false
+				for _, fr := range frags {
+					if redirected[fr.Slot] {
+						hasRedir = true
+					}
+				}
+				if !hasRedir {
+					continue
+				}
+				for _, fr := range frags {
+					if !redirected[fr.Slot] && rapid.Bool().Draw(t, "siblingerr") {
+						// replace (or add) the plan of this fragment: an immediate error, not held
+						np := Plan{Key: fr.Keys[0], Reply: Bin("-LOADING Redis is loading the dataset in memory\r\n")}
+						replaced := false
+						for pi := range c.Spec.Plans {
+							if string(c.Spec.Plans[pi].Key) == string(fr.Keys[0]) {
+								c.Spec.Plans[pi] = np
+								replaced = true
+							}
+						}
+						if !replaced {
+							c.Spec.Plans = append(c.Spec.Plans, np)
+						}
+					}
+				}
+			}
+		}
+		// the schedule must match the held plans that are left
+		nh = 0
+		for _, p := range c.Spec.Plans {
+			if p.Hold {
+				nh++
+			}
+		}
+		c.Spec.Schedule = genSchedule(t, nh)
+	}
 	return c
 }
 
@@ -201,6 +255,14 @@ func c13Classify(c *c13Case) (bool, []string) {
 					cls = append(cls, "redirect-inside-split-request")
 				}
 			}
+		}
+	}
+	if c.Spec.RedirDelayMs > 0 {
+		cls = append(cls, "late-redirection-replies")
+	}
+	for _, p := range c.Spec.Plans {
+		if len(p.Reply) > 0 && p.Reply[0] == '-' {
+			cls = append(cls, "sibling-fragment-answered-with-error")
 		}
 	}
 	cls = append(cls, fmt.Sprintf("clients-%d", len(c.Spec.Clients)))
